@@ -7,7 +7,9 @@ import copy
 from .common import Broken
 
 DST = {"any": ("0.0.0.0/0", "default"), "n14": ("10.1.0.0/16", "10.1.0.0/16"),
-       "n12": ("10.1.1.0/30", "10.1.1.0/30"), "h1": ("10.1.1.1", "10.1.1.1")}
+       "n12": ("10.1.1.0/30", "10.1.1.0/30"), "h1": ("10.1.1.1", "10.1.1.1"),
+       # same network address as n14, other prefix length
+       "n24": ("10.1.0.0/24", "10.1.0.0/24")}
 RDST = {}
 for k, (a, b) in DST.items():
     RDST[a] = k
